@@ -110,6 +110,7 @@ EXC = {
     "NotRecorded": (lambda msg: verif_val.NotRecorded(msg)),
     "Outer.Inner": (lambda msg: verif_val.Outer.Inner(msg)),
     "Outer.Deep.Err": (lambda msg: verif_val.Outer.Deep.Err(msg)),
+    "LazyErr": (lambda msg: __import__("verif_val_lazy").LazyErr(msg)),      # (imported where it is raised, nowhere else)
 }
 _n = [0]
 
@@ -178,6 +179,15 @@ def run_job(job):
                     verif_val.vf(i + 500000)
                 except Exception as e:
                     ev["exc"] = type(e).__name__
+            elif op == "Unload":         # what a later process looks like: the module of the exception class is not imported (yet)
+                ev = {"op": "Reopen", "exc": ""}
+                sys.modules.pop("verif_val_lazy", None)
+                if cfg["backend"] != "memory":
+                    mb = (cfg["budget"] / 1048576.0) if cfg.get("budget") else None
+                    storage = FilesystemStorageBackend(path=os.path.join(base, "data"), memory_cache_mb=mb)
+                    Environment.set(Environment(name="verif", base_dir=base, repos=[ConfigurationRepository(
+                        name="r", clusters={"vv": FunctionCluster(name="vv", storage=storage)})]))
+                    kept.clear()
             elif op == "Reopen":         # a new backend object on the same store: nothing cached
                 ev = {"op": "Reopen", "exc": ""}
                 if cfg["backend"] != "memory":
